@@ -118,6 +118,20 @@ def run_property(pid, tier, seed, repo, root, t0):
         if o["role"] == "aux" and cfg.get("aux_failure", "violation") == "undecided":
             undecided.append("%s: auxiliary proof step failed (%s)" % (o["name"], _why(o)))
             continue
+        if o["name"].startswith("verus:") and o.get("failing") and \
+                not any("postcondition" in (e.get("message") or "") for e in o["failing"]):
+            # only auxiliary proof steps failed (hint assertion, loop invariant, lemma precondition, overflow
+            # side condition) — no contract clause.  That alone does not tell a broken function from a
+            # restructured one: it is a VIOLATION only together with a failing input on the real code.
+            unit = o["name"][len("verus:"):].split("::", 1)[0]
+            if unit in witness_run.WITNESS:
+                w = witness(unit)
+                if w.get("status") == "none":
+                    undecided.append("%s: an auxiliary proof step fails (%s) but the bounded search on the real code (%s; %s) "
+                                     "finds no failing input — the function was restructured or the contract needs rework"
+                                     % (o["name"], _why(o), w.get("bound"), w.get("detail")))
+                    o["status"] = "undecided"
+                    continue
         violations.append(o)
     for kf in known["findings"]:
         if kf.get("_hit"):
